@@ -760,8 +760,13 @@ func ruleC19_3(c *Ctx, r *Rep) {
 	entry.mem[loc] = &AV{K: 'i', Lo: 1, Hi: 1000}
 	nst, ok := 0, true
 	worst := ""
+	// private helpers that adjust the window are analysed with the caller's abstract state
+	ai.Inline = func(cal *ssa.Function, call *ssa.Call, args []*AV) bool { return true }
 	ai.OnStore = func(f *ssa.Function, st *ssa.Store, l string, v *AV, s *aiState) {
-		if f != recv || !strings.HasSuffix(l, ".maxMessages") {
+		if !strings.HasSuffix(l, ".maxMessages") {
+			return
+		}
+		if fa, isFA := st.Addr.(*ssa.FieldAddr); !isFA || !typeIs(fa.X.Type(), modPath+"/actions", "httpPushStreamConn") {
 			return
 		}
 		nst++
